@@ -2,7 +2,7 @@
    correspondence driver feeds them (strings, association lists, bit patterns). *)
 From Coq Require Import String Ascii List Bool ZArith.
 From SvgdxModel Require Import Base.Str Base.Res Num.F32 Num.NumOps Gen.Tables Model.Types Model.Geom
-  Model.Position Model.Scan Model.Element Model.Text Model.Connector.
+  Model.Position Model.Scan Model.Element Model.Text Model.Connector Model.Root.
 Import ListNotations.
 Open Scope string_scope.
 
@@ -67,3 +67,20 @@ Definition run_connect (name : string) (a : attrs) (others : list (string * attr
       match ecls FN e with
       | [] => eattrs FN e
       | cl => (eattrs FN e ++ [("class", concat_sep " " cl)])%list end).
+(* ---- C08: root attributes and document extent ---- *)
+Definition bb_of_bits (b : Z * Z * Z * Z) : bbox FN :=
+  let '(x1, y1, x2, y2) := b in Build_bbox FN (of_bits x1) (of_bits y1) (of_bits x2) (of_bits y2).
+(* the hook builds the root element with SvgElement::new("svg", attrs) *)
+Definition run_rootattrs (orig : attrs) (bb : option (Z * Z * Z * Z)) (border scale_bits : Z)
+           (local_id svg_style : option string) : res attrs :=
+  root_attrs FN strp fstr (eattrs FN (new_el FN "svg" orig)) (option_map bb_of_bits bb)
+             (of_Z border) (of_bits scale_bits) local_id svg_style.
+Definition mk_node (name : string) (a : attrs) (idx : Z) (empty : bool) (text : option string)
+           (kids : list (node FN)) : node FN :=
+  let e := new_el FN name a in
+  Node {| ename := ename FN e; eattrs := eattrs FN e; ecls := ecls FN e; ecbb := None; eidx := idx;
+          etext := text; eindent := 0; eline := 0; eempty := empty; eorig := "" |} kids.
+Definition run_docroot (doc : list (node FN)) (border scale_bits : Z)
+  : res (option (Z * Z * Z * Z) * option attrs) :=
+  do '(e, a) <- doc_root FN strp fstr fdisplay doc (of_Z border) (of_bits scale_bits) None None;
+  Ok (option_map bb_bits e, a).
